@@ -5,7 +5,7 @@ patch=$1; shift
 cd /repo && git diff --quiet || { echo "repo dirty"; exit 2; }
 git -C /repo apply "$patch" || { echo "patch does not apply"; exit 2; }
 cd /verif && ./check --build || { git -C /repo checkout -- .; exit 2; }
-mkdir -p /tmp/mutrep; rm -rf /tmp/mutrep/*
+mkdir -p /tmp/mutrep; rm -rf /tmp/mutrep/*; cp /verif/known-findings.json /tmp/mutrep/
 for p in "$@"; do
   VERIF_ROOT=/tmp/mutrep ./target/release/egsim batch --prop $p --no-evidence 2>&1 | grep -v "^KNOWN\|^NOTE" | cut -c1-330 | tail -4
   cp /verif/known-findings.json /tmp/mutrep/ 2>/dev/null
